@@ -49,6 +49,7 @@ SCEN = {
     'FrameS': lambda inv=(): sc('MC_FrameS', 4, 5, inv),
     'StallS': lambda inv=(): sc('MC_StallS', 6, 7, inv),
     'IdsC': lambda inv=(): sc('MC_IdsC', 4, 5, inv),
+    'PushOffC': lambda inv=(): sc('MC_PushOffC', 5, 6, inv),
     'BigC': lambda inv=(): sc('MC_BigC', 4, 5, inv),
     'BigS': lambda inv=(): sc('MC_BigS', 4, 5, inv),
     'RawS': lambda inv=(): sc('MC_RawS', 3, 4, inv),
@@ -106,7 +107,7 @@ PROPS = {
             'lens': [(['r', 'o', 'e', 'q.rw', 'z.iw', 'z.closed', 'z.streams.by', 'z.hp'], S('recv', 'dlv'))]},
     'C21': {'scenarios': [dict(s, chunked=True) for s in scen('LifeS LifeC MiscC CloseS FrameS RawS RawC', [])],
             'lens': [(['r', 'o', 'e'], S('recv', 'dlv'))]},
-    'C22': {'scenarios': scen('LifeC SetC MiscS Pair1 PushC PushS', ['P_C22_PushOnlyWhenAllowed']),
+    'C22': {'scenarios': scen('LifeC SetC MiscS Pair1 PushC PushS PushOffC', ['P_C22_PushOnlyWhenAllowed']),
             'lens': [(['r', 'o', 'e'] + STATE_FSM, S('call:push', 'frame:PP')), (['r', 'e'], S('frame:HEADERS', 'frame:DATA'))]},
     'C23': {'scenarios': scen('MiscC MiscS', ['P_C23_PriorityChangesNothing']),
             'lens': [(['r', 'o', 'e'], S('call:prio', 'frame:PRIO')), (['r', 'o', 'e'], S('call:hdr', 'frame:HEADERS')),
